@@ -163,6 +163,16 @@ frecipe('KullbackLeiblerCrossEntropyConvexConj', ('rn', 'discr'), 'trans',
     lambda ctx, sp: S.KullbackLeiblerCrossEntropy(sp, prior=sp.element([1.0, 2.0][:sp.size])).convex_conj)
 frecipe('SeparableSum/L1+L2sq', ('rn', 'discr'), 'pl', [DEF + 'SeparableSum'], n=1)(
     lambda ctx, sp: S.SeparableSum(S.L1Norm(sp), S.L2NormSquared(sp)))
+# summands of the same class (and domain) that differ only in their parameters
+frecipe('SeparableSum/2*L2sq+0.5*L2sq', ('rn', 'discr'), 'pl', [DEF + 'SeparableSum'], n=1)(
+    lambda ctx, sp: S.SeparableSum(2.0 * S.L2NormSquared(sp), 0.5 * S.L2NormSquared(sp)))
+frecipe('SeparableSum/L1+2*L2sq+0.5*L2sq', ('rn',), 'pl', [DEF + 'SeparableSum'], n=1)(
+    lambda ctx, sp: S.SeparableSum(S.L1Norm(sp), 2.0 * S.L2NormSquared(sp), 0.5 * S.L2NormSquared(sp)))
+frecipe('SeparableSum/L1.translated(a)+L1.translated(b)', ('rn',), 'pl', [DEF + 'SeparableSum'], n=1)(
+    lambda ctx, sp: S.SeparableSum(S.L1Norm(sp).translated(sp.element([1.5])),
+                                   S.L1Norm(sp).translated(sp.element([-0.5]))))
+frecipe('SeparableSum/Huber(0.5)+Huber(2)', ('rn',), 'pl', [DEF + 'SeparableSum'], n=1)(
+    lambda ctx, sp: S.SeparableSum(S.Huber(sp, 0.5), S.Huber(sp, 2.0)))
 frecipe('SeparableSum/power', ('rn',), 'pl', [DEF + 'SeparableSum'], n=1)(
     lambda ctx, sp: S.SeparableSum(S.L1Norm(sp), 2))
 frecipe('QuadraticForm/op+vec', ('rn',), 'pl', [DEF + 'QuadraticForm'],
